@@ -22,7 +22,7 @@
          output["config"], output["log"], output["metadata"] (, gene_identifier_mapping)
          write JSON; blob_to_hdf5 (metadata only unless results and taxonomy_tree present) *)
 From Coq Require Import ZArith List Bool.
-From CTM Require Import Base.Sx.
+From CTM Require Import Base.Sx Model.Pool.
 Import ListNotations.
 
 Inductive key := KResults | KMarkerGenes | KTaxonomyTree | KNUnmapped
@@ -144,6 +144,72 @@ Definition json_keys (tr : list eff) : option (list key) :=
 Definition hdf5_obs (tr : list eff) : option (list key * bool) :=
   match find (fun e => (eff_tag e =? 18)%Z) tr with Some (WriteHdf5 ks b) => Some (ks, b) | _ => None end.
 
+(* position of the first effect with a given tag *)
+Fixpoint index_of (t : Z) (tr : list eff) : option nat :=
+  match tr with
+  | [] => None
+  | e :: r => if (eff_tag e =? t)%Z then Some O
+              else match index_of t r with Some i => Some (S i) | None => None end
+  end.
+
+(* a worker failure of the mapping stage: the pool of Model/Pool.v did not drain cleanly,
+   the inspector raised inside run_type_assignment_on_h5ad, i.e. the step `Assign` raised *)
+Definition assign_fail (r : pres) : option point :=
+  match r with POk => None | _ => Some PAssign end.
+
+(* the keys the finally block adds *)
+Definition finally_keys (c : cfg) : list key :=
+  [KConfig; KLog; KMetadata] ++ (if has_gene_map c then [KGeneMapping] else []).
+
+(* ---- executable statements of C14 on an effect trace (also evaluated by the harness on
+   the effects OBSERVED on the real run_mapping) *)
+(* the clauses of the property itself: the call raises; no success message; no result
+   records (JSON / HDF5 hold only what the finally block adds); the log file is written (when
+   a path was given) and holds the traceback, i.e. it is written after the traceback was added *)
+Definition prop_trace_ok (c : cfg) (tr : list eff) (raised : bool) : bool :=
+  raised &&
+  negb (has_eff 11 tr) &&
+  (implb (has_log_path c) (has_eff 16 tr)) &&
+  (match index_of 13 tr, index_of 16 tr with
+   | Some i, Some j => (i <? j)%nat | _, None => true | None, Some _ => false end) &&
+  (match json_keys tr with
+   | Some ks => negb (has_key KResults ks) && forallb (fun k => has_key k (finally_keys c)) ks
+   | None => true end) &&
+  (match hdf5_obs tr with
+   | Some (ks, b) => negb b && negb (has_key KResults ks) && forallb (fun k => has_key k (finally_keys c)) ks
+   | None => true end).
+
+(* what holds whenever _run_mapping raised, wherever it did: the property's clauses and the
+   rest of the shape of a failed run *)
+Definition failed_trace_ok (c : cfg) (tr : list eff) (raised : bool) : bool :=
+  prop_trace_ok c tr raised &&
+  has_eff 19 tr &&                                      (* Reraise is the last thing *)
+  negb (has_eff 10 tr) &&                               (* (result buffer not cleaned: C19) *)
+  has_eff 13 tr &&                                      (* traceback added to the log *)
+  (match json_keys tr with                              (* JSON written iff requested, all keys *)
+   | Some ks => has_json c && forallb (fun k => has_key k ks) (finally_keys c)
+   | None => negb (has_json c) end) &&
+  (match hdf5_obs tr with                               (* HDF5 written iff requested *)
+   | Some (ks, b) => has_hdf5 c && forallb (fun k => has_key k ks) (finally_keys c)
+   | None => negb (has_hdf5 c) end) &&
+  (implb (has_tmp c) (has_eff 14 tr)).                  (* tmp dir removed *)
+
+Definition failed_run_ok (c : cfg) (fail : option point) : bool :=
+  let r := run_mapping c fail in failed_trace_ok c (fst r) (snd r).
+
+(* the CSV is not written when the run fails at or before the assignment *)
+Definition no_csv_trace (tr : list eff) : bool := negb (has_eff 7 tr).
+Definition no_csv (c : cfg) (fail : option point) : bool := no_csv_trace (fst (run_mapping c fail)).
+
+(* success path, for contrast (and so that the statement above is not vacuous) *)
+Definition clean_trace_ok (c : cfg) (tr : list eff) (raised : bool) : bool :=
+  negb raised && has_eff 11 tr && negb (has_eff 13 tr) && negb (has_eff 19 tr) && has_eff 10 tr &&
+  implb (has_csv c) (has_eff 7 tr) &&
+  (match json_keys tr with Some ks => has_key KResults ks | None => negb (has_json c) end) &&
+  (match hdf5_obs tr with Some (_, b) => b | None => negb (has_hdf5 c) end).
+Definition clean_run_ok (c : cfg) : bool :=
+  let r := run_mapping c None in clean_trace_ok c (fst r) (snd r).
+
 (* ------------------------------------------------------------------ wire *)
 Definition point_of (z : Z) : option point :=
   match z with
@@ -165,6 +231,54 @@ Definition run_mapping_sx (x : sx) : sx :=
                     of_option (fun ks => of_LZ (map key_tag ks)) (json_keys (fst r));
                     of_option (fun p => L [of_LZ (map key_tag (fst p)); of_bool (snd p)]) (hdf5_obs (fst r))])
       | _, _, _, _, _, _, _, _, _ => sx_bad
+      end
+  | _ => sx_bad
+  end.
+
+(* the property's own statement evaluated on an OBSERVED trace.
+   input: ((tmp csv obsm summary log json hdf5 genemap) raised (effect tags)
+           (json key tags) | ()  ((hdf5 key tags) with_results) | ())
+   output: (prop_trace_ok, failed_trace_ok, no_csv_trace, clean_trace_ok) *)
+Definition key_of (z : Z) : option key :=
+  match z with
+  | 0 => Some KResults | 1 => Some KMarkerGenes | 2 => Some KTaxonomyTree | 3 => Some KNUnmapped
+  | 4 => Some KConfig | 5 => Some KLog | 6 => Some KMetadata | 7 => Some KGeneMapping | _ => None
+  end%Z.
+Definition keys_of (l : list Z) : option (list key) := opt_all (map key_of l).
+
+Definition eff_of (jk : list key) (hk : list key * bool) (t : Z) : option eff :=
+  match t with
+  | 1 => Some MkTmp | 2 => Some ProbeOutputs | 3 => Some MkResultBuf | 4 => Some CopyInputs
+  | 5 => Some MarkerCache | 6 => Some Assign | 7 => Some WriteCsv | 8 => Some AppendObsm
+  | 9 => Some WriteSummary | 10 => Some CleanResultBuf | 11 => Some LogSuccess
+  | 12 => Some (Fail PAssign) | 13 => Some LogTraceback | 14 => Some CleanTmp | 15 => Some LogCleaning
+  | 16 => Some WriteLogFile | 17 => Some (WriteJson jk) | 18 => Some (WriteHdf5 (fst hk) (snd hk))
+  | 19 => Some Reraise | _ => None
+  end%Z.
+
+Definition check_trace_sx (x : sx) : sx :=
+  match x with
+  | L [L [a; b; c; d; e; f; g; h]; rs; tags; jk; hk] =>
+      match sx_bool a, sx_bool b, sx_bool c, sx_bool d, sx_bool e, sx_bool f, sx_bool g, sx_bool h with
+      | Some a, Some b, Some c, Some d, Some e, Some f, Some g, Some h =>
+          let cf := {| has_tmp := a; has_csv := b; has_obsm := c; has_summary := d; has_log_path := e;
+                       has_json := f; has_hdf5 := g; has_gene_map := h |} in
+          let jk' := match sx_LZ jk with Some l => keys_of l | None => None end in
+          let hk' := match hk with
+                     | L [ks; bb] => match sx_LZ ks, sx_bool bb with
+                                     | Some l, Some bb => match keys_of l with Some ks => Some (ks, bb) | None => None end
+                                     | _, _ => None end
+                     | _ => Some ([], false) end in
+          match sx_bool rs, sx_LZ tags, jk', hk' with
+          | Some rs, Some tags, Some jk', Some hk' =>
+              match opt_all (map (eff_of jk' hk') tags) with
+              | Some tr => sx_ok (L [of_bool (prop_trace_ok cf tr rs); of_bool (failed_trace_ok cf tr rs); of_bool (no_csv_trace tr);
+                                     of_bool (clean_trace_ok cf tr rs)])
+              | None => sx_bad
+              end
+          | _, _, _, _ => sx_bad
+          end
+      | _, _, _, _, _, _, _, _ => sx_bad
       end
   | _ => sx_bad
   end.
